@@ -7,6 +7,8 @@ package rules
 
 import (
 	"fmt"
+	"go/token"
+	"go/types"
 	"strings"
 
 	"golang.org/x/tools/go/ssa"
@@ -22,6 +24,7 @@ func init() {
 
 func runDivCore(m *model.Model, s *ob.Set) {
 	const R = "DIVCORE"
+	runDivShortcut(m, s)
 	for _, fn := range m.Funcs {
 		if !m.InDecimalPkg(fn) || len(fn.Blocks) == 0 || !inKernelLayer(m, fn) || fn.Synthetic != "" {
 			continue
@@ -39,7 +42,7 @@ func runDivCore(m *model.Model, s *ob.Set) {
 		for _, b := range fn.Blocks {
 			for _, in := range b.Instrs {
 				if c, ok := in.(*ssa.Call); ok {
-					if cal := c.Call.StaticCallee(); cal != nil && m.InDecimalPkg(cal) && strings.HasPrefix(cal.Name(), "div10W") {
+					if cal := model.Unthunk(c.Call.StaticCallee()); cal != nil && m.InDecimalPkg(cal) && strings.HasPrefix(cal.Name(), "div10W") {
 						calls = append(calls, c)
 					}
 				}
@@ -70,4 +73,240 @@ func runDivCore(m *model.Model, s *ob.Set) {
 		}
 		s.Check(bad == "", R, fn.Name(), m.Pos(fn.Pos()), "every return is behind the reduction by the word base", bad+": a binary double word whose high half is zero can still be a two-word decimal number (10^19 <= lo < 2^64)")
 	}
+}
+
+// runDivShortcut: a vector kernel that splits each word into quotient and remainder by a power of
+// ten (the method div of the divisor record) may skip the division only for a word strictly below
+// the divisor, where the pair is (0, word). `word <= divisor` is off by one: the divisor itself
+// has quotient 1 and remainder 0.
+func runDivShortcut(m *model.Model, s *ob.Set) {
+	const R = "DIVCORE"
+	// the division method and the field that holds the divisor: r = n - q*F
+	var divFn *ssa.Function
+	divField := -1
+	for _, fn := range m.Funcs {
+		if !m.InDecimalPkg(fn) || len(fn.Blocks) == 0 || fn.Synthetic != "" || len(fn.Params) != 2 || fn.Signature.Recv() == nil {
+			continue
+		}
+		if _, ok := fn.Params[0].Type().Underlying().(*types.Struct); !ok || !m.IsWord(fn.Params[1].Type()) {
+			continue
+		}
+		if fn.Signature.Results().Len() != 2 {
+			continue
+		}
+		for _, b := range fn.Blocks {
+			for _, in := range b.Instrs {
+				bo, ok := in.(*ssa.BinOp)
+				if !ok || bo.Op != token.SUB || bo.X != ssa.Value(fn.Params[1]) {
+					continue
+				}
+				mu, ok := bo.Y.(*ssa.BinOp)
+				if !ok || mu.Op != token.MUL {
+					continue
+				}
+				for _, o := range []ssa.Value{mu.X, mu.Y} {
+					if f, ok := structFieldOf(stripConv(o), fn.Params[0]); ok {
+						divFn, divField = fn, f
+					}
+				}
+			}
+		}
+	}
+	if divFn == nil {
+		return
+	}
+	for _, fn := range m.Funcs {
+		if !m.InDecimalPkg(fn) || len(fn.Blocks) == 0 || fn.Synthetic != "" || fn == divFn || !inKernelLayer(m, fn) {
+			continue
+		}
+		isDivRes := func(v ssa.Value) (*ssa.Call, int, bool) {
+			ex, ok := v.(*ssa.Extract)
+			if !ok {
+				return nil, 0, false
+			}
+			c, ok := ex.Tuple.(*ssa.Call)
+			if !ok || model.Unthunk(c.Call.StaticCallee()) != divFn {
+				return nil, 0, false
+			}
+			return c, ex.Index, true
+		}
+		live := m.Live(fn)
+		k := 0
+		for _, b := range fn.Blocks {
+			if !live[b.Index] {
+				continue
+			}
+			for _, in := range b.Instrs {
+				ph, ok := in.(*ssa.Phi)
+				if !ok {
+					break
+				}
+				var call *ssa.Call
+				idx := 0
+				for _, e := range ph.Edges {
+					if c, i, ok := isDivRes(e); ok {
+						call, idx = c, i
+					}
+				}
+				if call == nil {
+					continue
+				}
+				for ei, e := range ph.Edges {
+					if _, _, ok := isDivRes(e); ok {
+						continue
+					}
+					if e2, ok := e.(*ssa.Phi); ok {
+						// loop-carried: a φ of division results further round
+						// examined where it is joined
+						some := false
+						for _, x := range e2.Edges {
+							if _, _, ok := isDivRes(x); ok {
+								some = true
+							}
+						}
+						if some {
+							continue
+						}
+					}
+					// a pair that does not come from the division: which test leads here?
+					pred := b.Preds[ei]
+					w := call.Call.Args[1]
+					rel := token.ILLEGAL
+					for _, gb := range fn.Blocks {
+						if len(gb.Instrs) == 0 {
+							continue
+						}
+						ifi, ok := gb.Instrs[len(gb.Instrs)-1].(*ssa.If)
+						if !ok {
+							continue
+						}
+						bo, ok := ifi.Cond.(*ssa.BinOp)
+						if !ok {
+							continue
+						}
+						x, y, op := stripConv(bo.X), stripConv(bo.Y), bo.Op
+						if isDivisorValue(y, call.Call.Args[0], divField) && sameWordValue(x, w) {
+						} else if isDivisorValue(x, call.Call.Args[0], divField) && sameWordValue(y, w) {
+							op = mirrorOpTok[op]
+						} else {
+							continue
+						}
+						for si := 0; si < 2; si++ {
+							if (gb == pred && gb.Succs[si] == b && gb.Succs[1-si] != b) || m.EdgeDominates(gb, si, pred) {
+								rel = op
+								if si == 1 {
+									rel = negOp[op]
+								}
+							}
+						}
+					}
+					k++
+					c := fmt.Sprintf("%s/split-shortcut#%d", fn.Name(), k)
+					switch rel {
+					case token.ILLEGAL:
+						s.Note(R, c, m.InstrPos(ph), "a quotient/remainder pair that does not come from the division joins one that does; no comparison of the word with the divisor recognised on the way (not decided)")
+					case token.LSS:
+						want := "the constant 0"
+						good := false
+						if idx == 0 {
+							kk, isK := model.ConstInt(e)
+							good = isK && kk == 0
+						} else {
+							want = "the word itself"
+							good = sameWordValue(stripConv(e), w)
+						}
+						s.Check(good, R, c, m.InstrPos(ph), "division skipped for a word strictly below the divisor", fmt.Sprintf("for a word below the divisor result #%d of the split is %s; this path hands on something else", idx, want))
+					default:
+						s.Bad(R, c, m.InstrPos(ph), fmt.Sprintf("the division by the power of ten is skipped on the edge where word %s divisor: it may be skipped only for word < divisor (a word equal to the divisor has quotient 1 and remainder 0, one above it even more)", rel))
+					}
+				}
+			}
+		}
+	}
+}
+
+// structFieldOf: v is field f of the struct value (or spilled struct parameter) base.
+func structFieldOf(v ssa.Value, base ssa.Value) (int, bool) {
+	switch x := v.(type) {
+	case *ssa.Field:
+		if x.X == base {
+			return x.Field, true
+		}
+		if u, ok := x.X.(*ssa.UnOp); ok && u.Op == token.MUL {
+			if spilledFrom(u.X, base) {
+				return x.Field, true
+			}
+		}
+	case *ssa.UnOp:
+		if x.Op == token.MUL {
+			if fa, ok := x.X.(*ssa.FieldAddr); ok && spilledFrom(fa.X, base) {
+				return fa.Field, true
+			}
+		}
+	}
+	return 0, false
+}
+
+// spilledFrom: addr is a local the value base was stored into.
+func spilledFrom(addr ssa.Value, base ssa.Value) bool {
+	al, ok := addr.(*ssa.Alloc)
+	if !ok {
+		return false
+	}
+	for _, r := range *al.Referrers() {
+		if st, ok := r.(*ssa.Store); ok && st.Addr == ssa.Value(al) && st.Val == base {
+			return true
+		}
+	}
+	return false
+}
+
+// isDivisorValue: v is field f of the record recv that is handed to the division (a load of the
+// local the record lives in, or a field of the very value).
+func isDivisorValue(v ssa.Value, recv ssa.Value, f int) bool {
+	v = stripConv(v)
+	local := func(x ssa.Value) ssa.Value {
+		if u, ok := x.(*ssa.UnOp); ok && u.Op == token.MUL {
+			return u.X
+		}
+		return nil
+	}
+	switch x := v.(type) {
+	case *ssa.Field:
+		if x.Field != f {
+			return false
+		}
+		if x.X == recv {
+			return true
+		}
+		if a, b := local(x.X), local(recv); a != nil && a == b {
+			return true
+		}
+	case *ssa.UnOp:
+		if x.Op != token.MUL {
+			return false
+		}
+		if fa, ok := x.X.(*ssa.FieldAddr); ok && fa.Field == f {
+			if b := local(recv); b != nil && fa.X == b {
+				return true
+			}
+		}
+	}
+	return false
+}
+
+// sameWordValue: the same SSA value, or two loads of the same element address expression.
+func sameWordValue(a, b ssa.Value) bool {
+	a, b = stripConv(a), stripConv(b)
+	if a == b {
+		return true
+	}
+	ua, ok1 := a.(*ssa.UnOp)
+	ub, ok2 := b.(*ssa.UnOp)
+	if ok1 && ok2 && ua.Op == token.MUL && ub.Op == token.MUL {
+		ia, ok1 := ua.X.(*ssa.IndexAddr)
+		ib, ok2 := ub.X.(*ssa.IndexAddr)
+		return ok1 && ok2 && ia.X == ib.X && ia.Index == ib.Index
+	}
+	return false
 }
